@@ -27,7 +27,7 @@ ASSUMPTIONS = [
     "command payload schemas inside the NCP model are bellows' own tables (header layouts and negotiation logic are independent)",
 ]
 PROBES = ["spontaneous_rstack_before_rst", "spontaneous_rstack_while_reset_pending", "startup_wait_timed_out", "startup_reset_consumed",
-          "bringup_raised_under_faults", "second_query_sent", "version_gt_14", "renegotiated_after_reset", "sched.batch", "sched.reorder"]
+          "bringup_raised_under_faults", "bringup_retry_after_faults_ok", "second_query_sent", "version_gt_14", "renegotiated_after_reset", "sched.batch", "sched.reorder"]
 
 VERSIONS = list(range(4, 21))
 BOOTS = (None, 0.2, 0.999, 1.0, 1.2, 2.5)
@@ -93,6 +93,24 @@ def run(scenario, params, tape, detail=False):
 
     st = {}
 
+    async def retry(ez):
+        """Bring-up failed while the line was faulty: once the faults have stopped, bring-up is repeated on the same connection."""
+        plan_.stop()
+        rig.line.ties = False
+        await asyncio.sleep(30.0)  # whatever was in flight (retransmissions, a pending 5 s reset wait) has ended by now
+        st["retry_first_reset"] = len(ncp.first_after_reset)
+        st["retry_t0"] = loop.time()
+        st["retry_rst0"] = len([1 for (t, fr, d) in rig.host_writes if fr is not None and fr[0] == "rst"])
+        try:
+            ez.stop_ezsp()  # as ControllerApplication._reset() does before every repeated bring-up
+            await ez.startup_reset()
+            st["retry"] = ("ok", ez.ezsp_version, type(ez._protocol).VERSION, loop.time())
+            await ez.write_config({})
+            r = await ez.getEui64()
+            st["retry_eui"] = bytes(r[0].serialize())
+        except Exception as e:
+            st["retry"] = ("raised", type(e).__name__, repr(e), loop.time())
+
     async def main():
         ez = await rig.connect()
         st["connected"] = loop.time()
@@ -100,6 +118,8 @@ def run(scenario, params, tape, detail=False):
             await ez.startup_reset()
         except Exception as e:
             st["bringup"] = ("raised", type(e).__name__, loop.time())
+            if plan_ is not None:
+                await retry(ez)
             return
         st["bringup"] = ("ok", loop.time())
         st["version_at_bringup"] = ez.ezsp_version
@@ -219,6 +239,17 @@ def run(scenario, params, tape, detail=False):
     elif bring is not None:
         if faults:
             probe("bringup_raised_under_faults")
+            # C09.retry (bounded liveness): the faults have stopped, the connection is still there: a repeated bring-up completes
+            rt = st.get("retry")
+            if rt is not None and rig.transport is not None and not rig.transport._closing:
+                nrst = len([1 for (t, fr, d) in rig.host_writes if fr is not None and fr[0] == "rst"]) - st["retry_rst0"]
+                if rt[0] != "ok":
+                    viol.append(("C09.retry", "raised", f"bring-up failed under line faults ({bring[1]}); repeated on the same connection 30 s after the last fault it raised {rt[2]} "
+                                 f"(NCP v{V}, {'socket' if sock else 'serial'}; RST frames written during the retry: {nrst})"))
+                elif rt[1] != V or rt[2] != min(V, 14) or st.get("retry_eui") != ncp.eui64:
+                    viol.append(("C09.retry", "state", f"repeated bring-up returned version {rt[1]} / tables v{rt[2]} for an NCP of version {V}; getEui64 gave {st.get('retry_eui')!r}"))
+                else:
+                    probe("bringup_retry_after_faults_ok")
         else:
             live.append(("C09.config", "bringup-raised", f"fault-free bring-up raised {bring[1]} at t={bring[2]:.3f} (NCP v{V}, {'socket' if sock else 'serial'}, boot={boot})"))
     if live and late_spont:
